@@ -207,6 +207,9 @@ func (st *state) init() (*Resp, error) {
 		if err != nil {
 			return nil, fmt.Errorf("file %s: no generated package registered it: %v", p.GetName(), err)
 		}
+		if n := fd.SourceLocations().Len(); n != 0 {
+			return nil, fmt.Errorf("file %s: the registered descriptor carries source_code_info (%d locations); generated code drops it", p.GetName(), n)
+		}
 		want := &descriptorpb.FileDescriptorProto{}
 		if err := (proto.UnmarshalOptions{AllowPartial: true}).Unmarshal(st.batch.Expected[i], want); err != nil {
 			return nil, fmt.Errorf("harness: %v", err)
